@@ -12,7 +12,7 @@ Local Open Scope N_scope.
 
 (* msg.Type = robust.MessageOfDeath; every other field of the message (and of the raft entry) is kept *)
 Definition retag (e : entry) : entry :=
-  mkEntry (e_idx e) (e_ts e) KMoD (e_exp e) (e_payload e).
+  mkEntry (e_idx e) (e_ts e) KMoD (e_exp e) (e_rev e) (e_payload e).
 
 (* fsm.store.StoreLogProto(l): LevelDB Put under key l.Index of the raft log store *)
 Definition mark (k : N) (L : list entry) : list entry :=
@@ -27,6 +27,7 @@ Section MOD.
   Variable apply_cmd : S -> entry -> option (S * list O).   (* None: the handler panics *)
   Variable apply_mod : S -> entry -> S.
   Variable exp_of : S -> N.
+  Variable rev_of : S -> N.
 
   (* applyRobustMessage as a total function on runs that do not panic: what M-FSM is instantiated with *)
   Definition apply_total (s : S) (e : entry) : S * list O :=
@@ -47,10 +48,10 @@ Section MOD.
   Definition apply_guarded (dlog : list entry) (f : fsm S O B) (e : entry) : outcome :=
     match e_kind e with
     | KInternal => Continued f
-    | KMoD => Continued (apply_entry S O B apply_total exp_of f e)
+    | KMoD => Continued (apply_entry S O B apply_total exp_of rev_of f e)
     | KCmd =>
         match apply_cmd (server f) e with
-        | Some _ => Continued (apply_entry S O B apply_total exp_of f e)
+        | Some _ => Continued (apply_entry S O B apply_total exp_of rev_of f e)
         | None => Died (e_idx e) (mark (e_idx e) dlog)
         end
     end.
